@@ -81,6 +81,19 @@ func (g *Graph) ID(name string) int {
 	return -1
 }
 
+// MakeLeaves drops the out-edges of every node selected by leaf (those nodes
+// stay in the graph as leaves, like nodes of packages outside the module).
+func (g *Graph) MakeLeaves(leaf func(Node) bool) {
+	for i, n := range g.Nodes {
+		if leaf(n) {
+			for _, b := range g.Out[i] {
+				delete(g.edge, [2]int{i, b})
+			}
+			g.Out[i] = nil
+		}
+	}
+}
+
 // Reach computes the forward closure of the seeds.
 func (g *Graph) Reach(seeds []int) []bool {
 	seen := make([]bool, len(g.Nodes))
@@ -570,6 +583,20 @@ func EmitCert(g *Graph, seeds []int) {
 	}
 	fmt.Printf("/-- candidate closed set: forward closure of the seeds computed by the extractor (%d nodes); Lean checks it -/\n", cnt)
 	fmt.Printf("def reach : Nat := 0x%s\n\n", mask.Text(16))
+}
+
+// EmitNamed prints (id, encoded name) for the nodes selected by pick; a name is
+// encoded as the number whose big-endian bytes are the name (numbers compare
+// fast in the Lean kernel, strings do not).
+func EmitNamed(def string, g *Graph, pick func(Node) bool) {
+	var rows []string
+	for i, n := range g.Nodes {
+		if pick(n) {
+			fmt.Printf("-- %d = %s\n", i, n.Name)
+			rows = append(rows, fmt.Sprintf("(%d, 0x%s)", i, new(big.Int).SetBytes([]byte(n.Name)).Text(16)))
+		}
+	}
+	fmt.Printf("def %s : List (Nat × Nat) := [%s]\n\n", def, strings.Join(rows, ", "))
 }
 
 func quoteJoin(xs []string) string {
